@@ -78,7 +78,7 @@ Definition as_spec12 (s : sx) : option screen_spec :=
       | Some pn, Some ir, Some ns, Some sk, Some pg, Some a0 =>
         Some {| sc_setup := su; sc_refresh := rf; sc_show := sh; sc_closed := cl; sc_input := it;
                 sc_input_default := (dc, dr); sc_prompt_none := pn; sc_input_required := ir;
-                sc_no_separator := ns; sc_skip_check := sk; sc_pages := pg; sc_answer0 := a0; sc_custom := [] |}
+                sc_no_separator := ns; sc_skip_check := sk; sc_pages := pg; sc_answer0 := a0; sc_custom := []; sc_setup_cmds := [] |}
       | _, _, _, _, _, _ => None
       end
     | _, _, _, _, _, _, _ => None
@@ -97,8 +97,18 @@ Definition as_spec (s : sx) : option screen_spec :=
                                   sc_closed := sc_closed sp; sc_input := sc_input sp; sc_input_default := sc_input_default sp;
                                   sc_prompt_none := sc_prompt_none sp; sc_input_required := sc_input_required sp;
                                   sc_no_separator := sc_no_separator sp; sc_skip_check := sc_skip_check sp;
-                                  sc_pages := sc_pages sp; sc_answer0 := sc_answer0 sp; sc_custom := cu |}
+                                  sc_pages := sc_pages sp; sc_answer0 := sc_answer0 sp; sc_custom := cu; sc_setup_cmds := [] |}
     | _, _ => None
+    end
+  | L [su; rf; sh; cl; it; d; pn; ir; ns; sk; pg; a0; cu; sc] =>       (* the 14-element form: + the commands of setup() itself *)
+    match as_spec12 (L [su; rf; sh; cl; it; d; pn; ir; ns; sk; pg; a0]), as_list as_cmds cu, as_cmds sc with
+    | Some sp, Some cu, Some sc =>
+                          Some {| sc_setup := sc_setup sp; sc_refresh := sc_refresh sp; sc_show := sc_show sp;
+                                  sc_closed := sc_closed sp; sc_input := sc_input sp; sc_input_default := sc_input_default sp;
+                                  sc_prompt_none := sc_prompt_none sp; sc_input_required := sc_input_required sp;
+                                  sc_no_separator := sc_no_separator sp; sc_skip_check := sc_skip_check sp;
+                                  sc_pages := sc_pages sp; sc_answer0 := sc_answer0 sp; sc_custom := cu; sc_setup_cmds := sc |}
+    | _, _, _ => None
     end
   | _ => as_spec12 s
   end.
